@@ -5,14 +5,15 @@ LEVEL_TEXT = ("Unbounded proof, function by function: each graph view (pairwise 
               "connected component, path validation, heuristic) has a postcondition against one definition of edge()/reach() and every "
               "obligation generated from the current source is discharged by z3 for all grids, cells and connection structures. "
               "The batch edge test (is_connection), from_adj_list (bits = exactly the rows' edges, size = max index + 1) and the forking / path-following partition of the solution "
-              "(exactly the solution indices and cells, in order, with more than one onward choice at an end and more than two elsewhere; the two lists are complementary) are proved as well; get_nodes and the adjacency-list "
-              "view (connection_list_to_adj_list) are decided by the bounded stand-in only (all graphs up to 2x3, sampled/all 3x3, random larger), labelled bounded.")
-LEVEL_NOTE = ("Trusted: the pyvc encoding of Python/numpy, z3; lemma reach_induction (least-fixed-point principle); list(set) enumeration contract; "
+              "(exactly the solution indices and cells, in order, with more than one onward choice at an end and more than two elsewhere; the two lists are complementary) are proved as well, and so is get_nodes (entry k is the cell (k // C, k % C): every cell once, row-major; np.meshgrid / ravel / np.vstack / .T library contracts); the adjacency-list "
+              "view (connection_list_to_adj_list) is decided by the bounded stand-in only (all graphs up to 2x3, sampled/all 3x3, random larger), labelled bounded.")
+LEVEL_NOTE = ("Trusted: the pyvc encoding of Python/numpy, z3; lemma reach_induction (least-fixed-point principle); row-major index algebra (lemmas/Unravel.lean); list(set) enumeration contract; "
               "numpy int64 treated as mathematical integers; partial correctness (no termination).")
 TECHNIQUE = "contract-based deductive verification of the real functions (AST-derived VCs, z3) + bounded run-time comparison with an independent spec"
-CONTRACT_MODULES = ["contracts.lattice_maze", "contracts.token_utils"]
+CONTRACT_MODULES = ["contracts.lattice_maze", "contracts.token_utils", "contracts.paths"]
 F = "maze_dataset/maze/lattice_maze.py"
 PROVE = [
+    (F, "LatticeMaze.get_nodes"),
     (F, "LatticeMaze.heuristic"),
     (F, "LatticeMaze.nodes_connected"),
     (F, "LatticeMaze.get_coord_neighbors"),
